@@ -139,7 +139,10 @@ def run_history(spec, hseed, steps, driver, props):
                         viol.append({"property": p3, "what": f"after a successful run the normalising store {i} holds "
                                      f"{ce.term(b.stores[i].value) if b.stores[i].mtime else None}; from scratch, through the stores: {ce.term(fs[i])}",
                                      "step": desc})
-                if out is not None:
+                if out is not None and out and not isinstance(rr.value, (list, tuple)):
+                    if p3:
+                        viol.append({"property": p3, "what": f"run returned {rr.value!r} where the values of nodes {out} were requested", "step": desc})
+                elif out is not None:
                     for k, o in enumerate(out):
                         if p3 and rr.value[k] != fs[o]:
                             viol.append({"property": p3, "what": f"run returned {ce.term(rr.value[k])} for node {o}; from scratch, through the "
